@@ -149,7 +149,7 @@ PROPS = {
         "props_file": "Props/C01.v",
         "run_module": "Model.Graph Model.Walk Model.RunC15 Model.RunC02 Model.RunC14 Model.Prune Model.RunC17 Model.Builder Model.RunC01",
         "run_fn": "run_c01",
-        "pinned_theorems": ["C01_single_entry_step", "C01_recorded_dep", "C01_nothing_pending"],
+        "pinned_theorems": ["C01_complete", "C01_settled_unfold", "C01_single_entry_step", "C01_recorded_dep", "C01_nothing_pending"],
         "rule": ("proviso worlds of 2-11 modules (JS/TS/JSX/TSX/d.ts/mjs/mts/JSON by extension or content-type header; "
                  "static/named/type-only/dynamic/export-star/export-type/@deno-types/reference types+path/self-types/"
                  "x-typescript-types/JSDoc/import-type imports; json/text/bytes/bogus attributes as a function of the "
@@ -164,7 +164,7 @@ PROPS = {
             "stage B1: no JSR/npm resolution, no source-phase imports, no source maps, no locker, utf-8 sources",
             "the loader is a function of its arguments",
         ],
-        "partial": ["the two-sided closure theorem C01_closure is not yet proved; closure is checked per case (model = real builder; C15/C02 on the same real graphs)"],
+        "partial": ["completeness (nothing reachable is absent) is proved for every world (C01_complete); the converse (nothing unreachable is present) is not yet proved and is checked per case (model = real builder; C15/C02 on the same real graphs)"],
     },
     "C03": {
         "harness": "c03",
